@@ -124,6 +124,12 @@ class EffectAnalysis:
             return {"shared": "self-shared", "per-call": "self-percall", "value": "self-value"}[k], None
         if name in fi.params and name not in binds:
             return "param", name
+        # a function defined locally, or the parameter of a lambda inside this function
+        for n in walk_body(fi.node.body):
+            if isinstance(n, (ast.FunctionDef, ast.AsyncFunctionDef)) and n.name == name:
+                return "fresh", None
+            if isinstance(n, ast.Lambda) and name in [a.arg for a in n.args.args]:
+                return "call-result", None
         if name in binds or name in fi.params:
             worst = "fresh"
             pname = None
